@@ -242,8 +242,72 @@ def run_bundle(params, known):
                 counts=counts, report_keys=['counts'])
 
 
+def run_outputs(params, known):
+    '''Output side: every way a bundle leaves the node - created locally / received and forwarded
+    (also from a clockless source) x CRC types of primary and canonical blocks (none, CRC-16, CRC-32,
+    mixed) x extension-block sets x sent whole / cut into 2 or 3 fragments by the route MTU x with and
+    without an integrity block added x status reports requested (the reports leave the node too).
+    Every octet string handed to the convergence layer is decoded independently and every CRC it
+    carries is recomputed bit-serially.'''
+    from . import c05
+    _env_bp()
+    violations = []
+    kinds = set()
+    keys = set()
+    count = 0
+    (part, parts) = params['part']
+    idx = -1
+    for crc in (0, 1, 2, 10, 20):
+        for ext in sorted(c05.EXT_SETS):
+            for origin in ('local', 'forward', 'forward-ts0'):
+                for bib in ((False, True) if origin == 'local' else (False,)):
+                    for length in (0, 1, 40, 300):
+                        for spec in (None, ('split', 2, 3), ('split', 3, 3)):
+                            for reports in (False, True):
+                                idx += 1
+                                if idx % parts != part:
+                                    continue
+                                bundle = c05.make_bundle(length, crc, ext, 0, origin)
+                                if reports:
+                                    bundle['primary'].update(flags=RPT, report_to='dtn://rpt/x')
+                                mtu = None
+                                if spec is not None:
+                                    if length == 0:
+                                        continue
+                                    mtu = c05.resolve_mtu(spec, bundle, None)
+                                count += 1
+                                world = c05.run_send(bundle, mtu, origin, bib)
+                                label = dict(crc=crc, ext=ext, origin=origin, integrity_block=bib, length=length, mtu=mtu, reports=reports)
+                                sent = world.sent()
+                                keys.add('%d/%s/%s/%s/%d/%s/%s/%d' % (crc, ext, origin, bib, length, mtu, reports, len(sent)))
+                                for out in sent:
+                                    try:
+                                        od = B.decode(out)
+                                    except B.Malformed as err:
+                                        found = ('output-not-rfc9171', '%s: %s' % (err, out.hex()[:200]))
+                                    else:
+                                        bad = [('primary' if i == 0 else 'block %d' % blk['num'])
+                                               for (i, blk) in enumerate([od['primary']] + od['blocks']) if not blk['crc_ok']]
+                                        found = ('crc-invalid-on-output', 'invalid CRC in %s of %s' % (', '.join(bad), out.hex()[:200])) if bad else None
+                                    if found and found[0] not in kinds:
+                                        kinds.add(found[0])
+                                        v = Violation(PROP, 'crc', found[0], dict(), '%r: %s' % (label, found[1])).as_dict()
+                                        v['case'] = dict(label=label, output=out.hex())
+                                        violations.append(v)
+    return dict(name=params['name'], evaluations=count, nontrivial_keys=sorted(keys), distinct_nontrivial=len(keys),
+                violations=violations, known=[], samples=[])
+
+
+def _env_bp():
+    from .. import env as _env
+    _env.load_bp()
+
+
 def scenarios(tier):
     out = []
+    for part in range(8):
+        nm = 'outputs#%d/8' % (part + 1)
+        out.append(dict(name=nm, kind='enum', runner='run_outputs', params=dict(name=nm, part=(part, 8)), weight=400))
     nparts = 4 if tier == 'quick' else 16
     for (name, bundle) in menu():
         size = len(B.encode(bundle))
@@ -258,6 +322,7 @@ ASSUMPTIONS = [
     'error patterns per start bit: the single flip; every burst pattern of length 2..8 (quick) / 2..11 (thorough); for longer bursts up to the CRC width the solid and the end-points-only pattern (quick: lengths 12, width-1, width; thorough: every length)',
     'every enumerated corruption must be dropped without trace; they are classified by the independent side as: block boundaries kept (the CRC carried in the block then cannot match the received octets), bundle still found by the independent decoder with a failing CRC, or no longer an RFC 9171 bundle at all (e.g. an array head turned into a break, leaving octets after the bundle); a corruption after which every CRC still verifies (impossible for these patterns) would be counted and not judged',
     'cases are delivered in batches of 64 to one agent followed by the pristine copy; a batch with any observable effect, or after which the pristine copy is not processed exactly as it is alone, is repeated case by case on fresh agents',
+    'output side: 5 CRC settings x extension sets x {local, forwarded, forwarded from a clockless source} x integrity block x payload 0/1/40/300 x whole / 2 / 3 fragments x reports requested; every octet string reaching the convergence layer has every CRC recomputed',
     'twelve bundles: CRC-16/CRC-32/mixed, fragment, administrative record, dtn and ipn endpoint IDs, empty payload',
 ]
 
